@@ -52,7 +52,7 @@ OPS_REQUIRED = ["sort_tree", "get_subtree", "to_subtree", "cut_tree", "redirect_
                 "TranslateOrigin", "Normalizer",
                 "RadiusReseter", "Transforms"]
 REQUIRED = ["contract_evals_" + o for o in OPS_REQUIRED] + [
-    "compositions_compared_with_their_members",
+    "compositions_compared_with_their_members", "steps_compared_under_custom_column_names",
     "steps_executed", "probe_output_poison", "probe_input_poison", "roundtrip_steps",
     "identity_transform_steps", "same_tree_in_two_argument_positions", "size_sweep_cases",
     "pipelines_starting_from_a_branch_tree", "deep_pruning_cases",
@@ -283,6 +283,8 @@ def fingerprint_cols(t):
 
 
 def _run_pipeline(ctx, case):
+    from swcgeom.core import Tree as Tree_
+
     rec = contracts.install()
     rng = np.random.default_rng(case["pseed"])
     spec = G.spec_from_recipe(case["tree"])
@@ -345,6 +347,14 @@ def _run_pipeline(ctx, case):
             ctx.violation(f"{mech}", f"step {step} {label}: contract on {fnname}: {detail}", case)
         if len(rec.problems) > n_prob:
             return
+        if kind != "roundtrip" and all(type(x) is Tree_ for x in inputs) and step < 3:
+            # the same step on twins that hold the same values under custom column names (the
+            # library's `names=` mechanism): the same tree, under the twins' names
+            r = G.same_under_renaming(fn, *inputs, level=(step + case["pseed"]) % 2)
+            ctx.count("steps_compared_under_custom_column_names")
+            if r:
+                ctx.violation("custom-column-names", f"step {step} {label}: {r}", case)
+                return
         # probe 1: poison the output, inputs must not notice
         saved = content(out)
         poison(out)
